@@ -140,7 +140,7 @@ def optTr (fs : Fields) : Option Fields := if fs.isEmpty then none else some fs
 def clientSide (s : St) (isHead : Bool) (status : Nat) (cl : Int) (h : Fields) (ntrDecl : Nat)
     (fs : List (Frame Fields)) : String :=
   let clp := respCL status cl
-  let kind := clientBodyKind clp isHead ntrDecl
+  let kind := clientBodyKind clp isHead status ntrDecl
   let (body, e, t) := runPlan s.cp kind fs .fin
   s!"ok {status} {clp} {showHL h} {hexOfBytes body} {e} {showTr e t}"
 
